@@ -27,7 +27,9 @@ ASSUME = [
 ]
 RULE = ("translator sample goals: each generated real function evaluated by the implementation on magnitudes "
         "2^-50..2^50 (mantissas from VERIF_SEED) and compared inside Coq by interval arithmetic, and at the boundary "
-        "argument 0 exactly (all variants and argument kinds; exclusions by name in definedness_obligations); index functions "
+        "argument 0 exactly (all variants and argument kinds; exclusions by name in definedness_obligations); every array "
+        "variant on arguments of shape (), (1,), (5,), (2,3), (3,1,2), empty, strided / transposed / Fortran views, float32 and "
+        "int64 (shape, entrywise agreement with the scalar variant, no aliasing); index functions "
         "compared by vm_compute on all k below the bound; variants (scalar/array/compiled/nd) compared numerically; "
         "distinct = distinct (function, input) pairs, all non-trivial (non-zero argument)")
 
@@ -202,6 +204,93 @@ def boundary_failures():
     return fails
 
 
+# conventions of the unchanged tree for a 0-d array argument, recorded per variant by the last run (evidence only;
+# what is REQUIRED is np.shape(result) == () -- a numpy scalar, a Python float and a 0-d array all qualify)
+SHAPE_CONVENTIONS: dict = {}
+
+
+def shape_failures(rng: random.Random):
+    """Argument SHAPE as a dimension of the stream: every array variant, every dimension, arguments of shape (), (1,),
+    (5,), (2, 3), (3, 1, 2), empty (0,) and (0, 3), a strided view, a transposed view, Fortran order, float32 and
+    integer arrays.  Required: the call succeeds, np.shape(result) == argument shape, every entry equals the scalar
+    variant (the generic function on the Python float of that entry; 1e-14 relative for binary64 arguments, 64 * 2^-24
+    for float32 arguments whose result may be computed in single precision), the argument is left unchanged and the
+    result does not share memory with it."""
+    import warnings
+    from droplets.tools import spherical as sp
+    fails = []
+    vals = [0.0] + [math.ldexp(1 + rng.randrange(0, 64) / 64.0, e) for e in (-30, -7, -1, 0, 1, 3, 11, 24, 40, 2, 5)]
+    base = np.array(vals)
+
+    def cases():
+        yield "shape ()", np.array(vals[3])
+        yield "shape (1,)", np.array([vals[4]])
+        yield "shape (5,)", base[:5].copy()
+        yield "shape (2, 3)", base[:6].reshape(2, 3).copy()
+        yield "shape (3, 1, 2)", base[3:9].reshape(3, 1, 2).copy()
+        yield "empty (0,)", np.zeros((0,))
+        yield "empty (0, 3)", np.zeros((0, 3))
+        yield "strided view [::2]", base[::2]
+        yield "transposed view (3, 2)", base[:6].reshape(2, 3).T
+        yield "Fortran order (2, 3)", np.asfortranarray(base[:6].reshape(2, 3))
+        yield "float32 (5,)", base[[0, 3, 4, 5, 6]].astype(np.float32)
+        yield "int64 (5,)", np.array([0, 1, 2, 3, 40])
+
+    for d in (1, 2, 3):
+        scalar = {"vfr": lambda x, d=d: sp.volume_from_radius(x, d), "rfv": lambda x, d=d: sp.radius_from_volume(x, d),
+                  "sfr": lambda x, d=d: sp.surface_from_radius(x, d), "rfs": lambda x, d=d: sp.radius_from_surface(x, d)}
+        variants = [("volume_from_radius", "vfr", scalar["vfr"]), ("radius_from_volume", "rfv", scalar["rfv"]),
+                    ("surface_from_radius", "sfr", scalar["sfr"]),
+                    ("make_volume_from_radius_compiled", "vfr", sp.make_volume_from_radius_compiled(d)),
+                    ("make_radius_from_volume_compiled", "rfv", sp.make_radius_from_volume_compiled(d)),
+                    ("make_surface_from_radius_compiled", "sfr", sp.make_surface_from_radius_compiled(d)),
+                    ("make_volume_from_radius_nd_compiled", "vfr",
+                     lambda x, d=d, g=sp.make_volume_from_radius_nd_compiled(): g(x, d)),
+                    ("make_radius_from_volume_nd_compiled", "rfv",
+                     lambda x, d=d, g=sp.make_radius_from_volume_nd_compiled(): g(x, d))]
+        if d > 1:
+            variants.append(("radius_from_surface", "rfs", scalar["rfs"]))
+        for vname, fam, f in variants:
+            for label, a in cases():
+                rec = {"what": f"{vname} on an array argument ({label})", "dim": d, "argument": label,
+                       "arg": np.asarray(a, dtype=float).tolist(), "dtype": str(a.dtype)}
+                before = a.copy()
+                try:
+                    with warnings.catch_warnings():
+                        warnings.simplefilter("ignore")
+                        res = f(a)
+                except Exception as e:  # noqa
+                    fails.append({**rec, "result": f"raised {type(e).__name__}: {e}"[:200]})
+                    continue
+                if label == "shape ()":
+                    SHAPE_CONVENTIONS[f"{vname}[dim={d}]"] = ("0-d ndarray" if isinstance(res, np.ndarray)
+                                                              else type(res).__name__)
+                if np.shape(res) != a.shape:
+                    fails.append({**rec, "result_shape": list(np.shape(res)), "argument_shape": list(a.shape),
+                                  "result": "shape of the result differs from the shape of the argument"})
+                    continue
+                if not np.array_equal(a, before):
+                    fails.append({**rec, "result": "the argument array was modified"})
+                    continue
+                if isinstance(res, np.ndarray) and res.size and np.shares_memory(res, a):
+                    fails.append({**rec, "result": "the result shares memory with the argument"})
+                    continue
+                tol = 64 * 2.0 ** -24 if a.dtype == np.float32 else 1e-14
+                got = np.asarray(res, dtype=float).reshape(-1)
+                xs = np.asarray(a, dtype=float).reshape(-1)   # logical (C) order of both
+                for k, (x, y) in enumerate(zip(xs, got)):
+                    try:
+                        ref = float(scalar[fam](float(x)))
+                    except Exception as e:  # noqa
+                        fails.append({**rec, "result": f"scalar variant raised {type(e).__name__} at {x!r}"})
+                        break
+                    if not (math.isfinite(y) and abs(y - ref) <= tol * abs(ref)):
+                        fails.append({**rec, "entry": k, "entry_argument": float(x), "array_value": float(y),
+                                      "scalar_value": ref, "result": "entry differs from the scalar variant"})
+                        break
+    return fails
+
+
 def oracle(rng: random.Random, n: int):
     """Executable form of the property text over the implementation; returns failing inputs."""
     from droplets.tools import spherical as sp
@@ -260,7 +349,8 @@ def oracle(rng: random.Random, n: int):
                 fails.append({"what": "bbox formula", "dim": d, "radius": x})
             if not close(dr.interface_curvature, 1 / x):
                 fails.append({"what": "curvature formula", "dim": d, "radius": x})
-    fails = boundary_failures() + fails   # the boundary of the quantifier first (they are the sharpest inputs)
+    # the boundary of the quantifier and the shapes of the arguments first (they are the sharpest inputs)
+    fails = boundary_failures() + shape_failures(random.Random(rng.random())) + fails
     for l in range(0, 40):
         for m in range(-l, l + 1):
             k = sp.spherical_index_k(l, m)
@@ -404,6 +494,7 @@ def _count_definedness(ctx, ok: bool, fresh: bool) -> None:
     ctx.obligations += n
     if ok:
         ctx.discharged += n
+    ctx.extra["argument_shape_conventions_0d"] = SHAPE_CONVENTIONS
     ctx.extra["definedness_obligations"] = {"count": n, "model_text": "regenerated" if fresh else "golden",
                                             "excluded_at_zero": EXCLUDED_AT_ZERO}
     if fresh:
